@@ -29,6 +29,7 @@ func checkC19(p *Program, r *Report) {
 	r.Explain("C19: R1 every entry K: reflect.ValueOf(X) / reflect.TypeOf(X) stored in env.Packages[P] / env.PackageTypes[P] resolves (go/types) to the exported object or named type K of the package whose import path is P — exhaustive over all table entries of the loaded build configuration. " +
 		"R2 P is a string constant and all entries of the table come from package P. " +
 		"R3 every builtin the statement lists is defined by core.Import with a function value of the contract's result type; no process-exit call is reachable in core/packages table code. " +
+		"R5 an integer read from a numeral string is parsed exactly: a strconv.ParseFloat whose result is truncated to an integer lies on the failure edge of strconv.ParseInt of the same string. " +
 		"R4 structural clauses of range/keys/toSlice on SSA: argument-count and zero-step rejections dominate the loop; the loop is a counting loop appending its own induction variable with strict bounds in both directions; keys copies one element per MapKeys entry; toSlice stores Zero on the non-convertible edge.")
 	r.Assume("numeric behaviour of range near the int64 limits and of toInt/toFloat/toString versus strconv/fmt is value-level and not decided")
 	r.Exhaustive = true
@@ -388,6 +389,7 @@ func c19Builtin(p *Program, r *Report) {
 	}
 	r.OK("C19.R3", "exit|core", "core", "no os.Exit/log.Fatal/runtime.Goexit call in package core")
 
+	c19ExactFirst(p, r)
 	// R4: structural clauses on SSA
 	lits := map[string]*ssa.Function{}
 	for _, fn := range SrcFuncs(sp) {
@@ -780,4 +782,110 @@ func guardedByCall(b *ssa.BasicBlock, method string) bool {
 		}
 	}
 	return false
+}
+
+// c19ExactFirst (R5): an integer read from a numeral string is parsed exactly: a float parse whose result is truncated to an
+// integer is only the fallback after the integer parse of the same string failed.
+func c19ExactFirst(p *Program, r *Report) {
+	n := 0
+	for _, suffix := range []string{"core", "vm"} {
+		sp := p.SSAPkg(suffix)
+		if sp == nil {
+			continue
+		}
+		for _, fn := range SrcFuncs(sp) {
+			k := 0
+			for _, b := range fn.Blocks {
+				for _, in := range b.Instrs {
+					c, ok := in.(*ssa.Call)
+					if !ok {
+						continue
+					}
+					o := calleeObj(c)
+					if o == nil || !isFuncNamed(o, "strconv", "", "ParseFloat") {
+						continue
+					}
+					// is the parsed float truncated to an integer?
+					truncated := false
+					for _, ref := range *c.Referrers() {
+						ex, ok := ref.(*ssa.Extract)
+						if !ok || ex.Index != 0 {
+							continue
+						}
+						for _, r2 := range *ex.Referrers() {
+							if cv, ok := r2.(*ssa.Convert); ok {
+								if bt, ok := cv.Type().Underlying().(*types.Basic); ok && bt.Info()&types.IsInteger != 0 {
+									truncated = true
+								}
+							}
+						}
+					}
+					if !truncated {
+						continue
+					}
+					n++
+					k++
+					inst := fmt.Sprintf("%s|truncated ParseFloat #%d", funcName(fn), k)
+					// an integer parse of the same string whose failure edge dominates this call
+					good := false
+					for _, b2 := range fn.Blocks {
+						for _, in2 := range b2.Instrs {
+							pi, ok := in2.(*ssa.Call)
+							if !ok {
+								continue
+							}
+							if o2 := calleeObj(pi); o2 == nil || !isFuncNamed(o2, "strconv", "", "ParseInt") || !sameStringArg(pi.Call.Args[0], c.Call.Args[0]) {
+								continue
+							}
+							var errEx ssa.Value
+							for _, ref := range *pi.Referrers() {
+								if ex, ok := ref.(*ssa.Extract); ok && ex.Index == 1 {
+									errEx = ex
+								}
+							}
+							if errEx == nil {
+								continue
+							}
+							for d := b; d != nil && d.Idom() != nil; d = d.Idom() {
+								id := d.Idom()
+								iff, ok := id.Instrs[len(id.Instrs)-1].(*ssa.If)
+								if !ok {
+									continue
+								}
+								bo, ok := iff.Cond.(*ssa.BinOp)
+								if !ok || bo.X != errEx || !isNilConst(bo.Y) {
+									continue
+								}
+								if (bo.Op == token.NEQ && edgeOnly(id, 0, d)) || (bo.Op == token.EQL && edgeOnly(id, 1, d)) {
+									good = true
+								}
+							}
+						}
+					}
+					r.Check(good, "C19.R5", inst, p.Pos(c.Pos()), "only after strconv.ParseInt of the same string failed", "a numeral string is read through float64 and truncated without trying the exact integer parse first: integers beyond 2^53 come out wrong")
+				}
+			}
+		}
+	}
+	r.Floor("C19.R5", n, 1)
+}
+
+// sameStringArg: two string operands are the same value (same SSA value, or type assertions / conversions of the same source).
+func sameStringArg(a, b ssa.Value) bool {
+	src := func(v ssa.Value) ssa.Value {
+		for i := 0; i < 4; i++ {
+			switch x := v.(type) {
+			case *ssa.TypeAssert:
+				v = x.X
+			case *ssa.Extract:
+				v = x.Tuple
+			case *ssa.ChangeType:
+				v = x.X
+			default:
+				return v
+			}
+		}
+		return v
+	}
+	return src(a) == src(b)
 }
